@@ -45,6 +45,20 @@ def diff_of(scratch, m):
         out += difflib.unified_diff(a, b, f"a/{path}", f"b/{path}")
     return ''.join(out)
 
+def save(results):
+    """merges results into evidence/selftest.json (called after every mutant, so that an interrupted run keeps what it has)"""
+    path = f"{ROOT}/evidence/selftest.json"
+    import fcntl
+    lk = open(f"{ROOT}/.bin/selftest.lock", 'w'); fcntl.flock(lk, fcntl.LOCK_EX)
+    old = {}
+    if os.path.exists(path):
+        try: old = {x['id']: x for x in json.load(open(path))['results']}
+        except Exception: old = {}
+    for r in results: old[r['id']] = r
+    json.dump(dict(results=sorted(old.values(), key=lambda x: x['id'])), open(path + '.tmp', 'w'), indent=1)
+    os.replace(path + '.tmp', path)
+    lk.close()
+
 def main():
     ap = argparse.ArgumentParser()
     ap.add_argument('-k', default='')
@@ -106,18 +120,11 @@ def main():
             r['status'] = 'caught' if caught else 'MISSED'
             r['wall_s'] = round(time.time() - t0, 1)
             results.append(r)
-            print(m['id'], r['status'], json.dumps(r.get('checks'))[:400])
+            save([r])
+            print(m['id'], r['status'], json.dumps(r.get('checks'))[:400], flush=True)
     finally:
         shutil.rmtree(scratch, ignore_errors=True)
-    path = f"{ROOT}/evidence/selftest.json"
-    import fcntl
-    lk = open(f"{ROOT}/.bin/selftest.lock", 'w'); fcntl.flock(lk, fcntl.LOCK_EX)
-    old = {}
-    if os.path.exists(path):
-        try: old = {x['id']: x for x in json.load(open(path))['results']}
-        except Exception: old = {}
-    for r in results: old[r['id']] = r
-    json.dump(dict(results=sorted(old.values(), key=lambda x: x['id'])), open(path, 'w'), indent=1)
+    save(results)
     missed = [r['id'] for r in results if r['status'] == 'MISSED']
     print('missed:', missed)
     sys.exit(1 if missed else 0)
